@@ -90,13 +90,24 @@ func (e *env) step(maxReorg int) string {
 		e.attach(b)
 		e.stats["blocks"]++
 		return "block"
-	case k < 72:
+	case k < 62:
+		// sweep: spend SEVERAL outputs of one earlier transaction (owned by different wallets or by
+		// nobody), in random input order, into ONE output
+		if tx := e.sweepTx(); tx != nil {
+			b := h.BuildBlock(r.Intn(2), []*wire.MsgTx{tx})
+			e.attach(b)
+			e.stats["blocks"]++
+			e.stats["sweeps"]++
+			return "sweep"
+		}
+		return ""
+	case k < 76:
 		if h.N.Height() < 2 {
 			return ""
 		}
 		e.reorg(1+r.Intn(maxReorg), true)
 		return "reorg"
-	case k < 80:
+	case k < 83:
 		if len(h.Wallets) > 0 {
 			wi := h.Wallets[r.Intn(len(h.Wallets))]
 			cls := uint16(0)
@@ -107,7 +118,7 @@ func (e *env) step(maxReorg int) string {
 			must(err)
 		}
 		return "addr"
-	case k < 90:
+	case k < 92:
 		tx := h.RandomTx()
 		if tx != nil {
 			rel, err := h.W.H.VerifReceiveTx(tx)
@@ -122,6 +133,58 @@ func (e *env) step(maxReorg int) string {
 		h.Query()
 		return "query"
 	}
+}
+
+// sweepTx spends two or more mature outputs of one transaction into a single output paying one
+// wallet address (or a stranger).
+func (e *env) sweepTx() *wire.MsgTx {
+	h, r := e.h, e.r
+	groups := map[wire.Hash][]*hist.Coin{}
+	var order []wire.Hash
+	for _, c := range h.MatureCoins(h.N.Height() + 1) {
+		if c.Class == hist.ClsBindingOld || c.Class == hist.ClsBindingNew {
+			continue
+		}
+		if _, ok := groups[c.Op.Hash]; !ok {
+			order = append(order, c.Op.Hash)
+		}
+		groups[c.Op.Hash] = append(groups[c.Op.Hash], c)
+	}
+	var cands []wire.Hash
+	for _, hsh := range order {
+		if len(groups[hsh]) >= 2 {
+			cands = append(cands, hsh)
+		}
+	}
+	if len(cands) == 0 {
+		return nil
+	}
+	g := groups[cands[r.Intn(len(cands))]]
+	for i := len(g) - 1; i > 0; i-- { // shuffle the input order
+		j := r.Intn(i + 1)
+		g[i], g[j] = g[j], g[i]
+	}
+	var ins []wire.OutPoint
+	var seqs []uint64
+	total := int64(0)
+	for _, c := range g {
+		ins = append(ins, c.Op)
+		seq := uint64(wire.MaxTxInSequenceNum)
+		if c.Class == hist.ClsStaking {
+			seq = uint64(c.Param)
+		}
+		seqs = append(seqs, seq)
+		total += c.Val
+	}
+	script := h.StrangerScript()
+	var all []*hist.AddrInfo
+	for _, w := range h.Wallets {
+		all = append(all, w.Addrs...)
+	}
+	if len(all) > 0 && r.Chance(85) {
+		script = h.ScriptStd(all[r.Intn(len(all))])
+	}
+	return sim.NewTx(ins, seqs, []sim.Out{{Script: script, Value: total}}, 0, nil)
 }
 
 // reorg detaches d blocks and attaches d or d+1 new ones; announce: process the new tip.
@@ -598,6 +661,47 @@ func directed(k int, out *bufio.Writer) {
 		must(h.Attach(b8))
 		h.Process(b8)
 		h.Query()
+	case 9, 10, 11, 12:
+		// C2 with several inputs from ONE previous transaction P: the removed wallet's (9), a stranger's
+		// (10) or both (11) output of P comes first, the survivor's output of P last; 12: survivor first.
+		// T pays only B; B removed; T's block reorganised away: A's coin must be unspent again.
+		var pouts []sim.Out
+		switch k {
+		case 9:
+			pouts = []sim.Out{{Script: h.ScriptStd(b1), Value: 100}, {Script: h.ScriptStd(a1), Value: 100}}
+		case 10:
+			pouts = []sim.Out{{Script: h.StrangerScript(), Value: 100}, {Script: h.ScriptStd(a1), Value: 100}}
+		case 11:
+			pouts = []sim.Out{{Script: h.StrangerScript(), Value: 100}, {Script: h.ScriptStd(b1), Value: 100}, {Script: h.ScriptStd(a1), Value: 100}}
+		case 12:
+			pouts = []sim.Out{{Script: h.ScriptStd(a1), Value: 100}, {Script: h.ScriptStd(b1), Value: 100}}
+		}
+		pt := hist.PayTx(e.pick(b1.Sh), pouts)
+		e.attach(h.BlockWith(nil, []*wire.MsgTx{pt}))
+		var ins []wire.OutPoint
+		total := int64(0)
+		for i, o := range pt.TxOut {
+			ins = append(ins, wire.OutPoint{Hash: pt.TxHash(), Index: uint32(i)})
+			total += o.Value
+		}
+		t := sim.NewTx(ins, nil, []sim.Out{{Script: h.ScriptStd(b1), Value: total}}, 0, nil)
+		e.attach(h.BlockWith(nil, []*wire.MsgTx{t}))
+		h.Query()
+		e.plainRemove(B)
+		h.Listing()
+		h.RetireWallet(B)
+		h.Query()
+		_, err := h.Detach()
+		must(err)
+		must(h.Attach(h.BlockWith(nil, nil)))
+		b8 := h.BlockWith(nil, nil)
+		must(h.Attach(b8))
+		h.Process(b8)
+		h.Query()
+		b9 := h.BlockWith([]sim.Out{{Script: h.ScriptStd(a1), Value: 900}}, nil)
+		must(h.Attach(b9))
+		h.Process(b9)
+		h.Query()
 	case 7:
 		// more credits than one round takes (thorough tier): 20100 credits in 201 transactions of 100 outputs
 		var outs []sim.Out
@@ -772,7 +876,7 @@ func main() {
 	var res []byte
 	if *dir {
 		self, _ := os.Executable()
-		ks := []int{1, 2, 3, 3, 3, 3, 4, 5, 5, 5, 5, 5, 5, 6, 8}
+		ks := []int{1, 2, 3, 3, 3, 3, 4, 5, 5, 5, 5, 5, 5, 6, 8, 9, 10, 11, 12}
 		if *tier == "thorough" {
 			ks = append(ks, 7)
 		}
